@@ -13,7 +13,8 @@ HARNESSES = [dict(name="ha", pkg="./pkg/ha/", test="TestVerifC11", timeout=900,
 VARIANTS = ["repaired", "d_stale", "d_head"]
 # known-finding signatures
 SIG = {"stale": "stale-redelivery-applied", "lagdel": "bulk-sync-lagging-standby-not-converging"}
-RULE = ("conc: HandleEvent called by concurrent handlers stopped by a gate inside sessionToCheckpoint (handshakes, no sleeps): all interleavings of start/completion of 2 and 3 handlers for capacities 2 and 4, random ones for 3-5 handlers mixed with uninterrupted events and role transitions (SetActive false/true: failover, failback, repeated activation, also while a handler is stopped); monitors ring consecutive, stream order = sequence order, Range exact for every (from,to) in 0..n+1. "
+RULE = ("storm: 30 cases of 8-200 ungated concurrent handlers (HandleEvent and HandleMutationResult) released together by a barrier, 5-100 rounds, same monitors. "
+        "conc: HandleEvent called by concurrent handlers stopped by a gate inside sessionToCheckpoint (handshakes, no sleeps): all interleavings of start/completion of 2 and 3 handlers for capacities 2 and 4, random ones for 3-5 handlers mixed with uninterrupted events and role transitions (SetActive false/true: failover, failback, repeated activation, also while a handler is stopped); monitors ring consecutive, stream order = sequence order, Range exact for every (from,to) in 0..n+1. "
         "rng: ring capacities {1..9, 16, 0 and -1 (=10000)} x pushed runs of consecutive uint64 sequence numbers (fresh, wrapped "
         "1..3 times, starting at 1 / large / just below 2^63), queried with every (from,to) in a window around the retained "
         "range plus empty, inverted, far-away and (class 'huge') >= 2^63 bounds; every answer is held by the caller and read again after each of cap+1 further pushes. "
@@ -466,10 +467,20 @@ def gen_conc(rng, tier, out):
         emit(rng.choice([1, 2, 3, 8]), ops + ["A:1", "E:5"])
 
 
+def gen_storm(rng, tier, out):
+    """Many handlers released together, no gate: the scheduler may preempt a handler at EVERY point between the counter
+    increment and the two pushes (the gated conc cases stop it at one point only).  Detection of a non-atomic sender is
+    probabilistic per case (about 40 % measured for 'sequence number taken before the lock'), hence many cases; on a correct
+    sender the output is schedule independent."""
+    for cap, workers, rounds in [(8, 64, 20), (4, 16, 50), (64, 200, 5), (8, 8, 100), (2, 32, 30), (16, 128, 8)] * (5 if tier == "quick" else 20):
+        out.append("storm x %d %d %d" % (cap, workers, rounds))
+
+
 def gen_cases(rng, tier, budget):
     out = []
     gen_rng(rng, tier, out)
     gen_conc(rng, tier, out)
+    gen_storm(rng, tier, out)
     n = (budget or 900) if tier == "quick" else (budget or 12000)
     modes = ["clean"] * 2 + ["fresh", "freshwrap", "lagbulk", "stale", "latest", "replay", "drop", "bulk", "relall"]
     for i in range(n):
@@ -485,6 +496,8 @@ def _flags(line):
 
 
 def nontrivial(case, out):
+    if case.startswith("storm"):
+        return True
     if case.startswith("conc"):
         return case.split()[1] == "overlap"
     if case.startswith("rng"):
@@ -496,6 +509,10 @@ def nontrivial(case, out):
 
 
 def classify(case, impl, model):
+    if case.startswith("storm"):
+        bad = [m for m in ("ringconsec", "streamorder", "rangeexact") if (m + "=bad") in impl]
+        return "P", ("sender under %s concurrent handlers: %s violated (number, ring push and enqueue are not one step)" %
+                     (case.split()[3], ", ".join(bad) or "sequence count"))
     if case.startswith("conc"):
         bad = [m for m in ("ringconsec", "streamorder", "rangeexact") if (m + "=bad") in impl and (m + "=ok") in model]
         if bad:
@@ -519,6 +536,9 @@ def classify(case, impl, model):
         return "P", "Range does not return exactly the retained entries of the requested range: " + "; ".join(what)
     ic, ipl = _flags(impl)
     mc, mpl = _flags(model)
+    if "fields=bad" in impl:
+        return "P", ("a stored checkpoint of a live session differs from the session in a field: " +
+                     re.search(r"fields=(\S+)", impl).group(1)[:300])
     if "MODEL-DOES-NOT-CONVERGE" in model:
         return "P", ("every message was delivered, yet neither the implementation nor the repaired model converges "
                      "(impl conv=%s pools=%s): the property is violated and the model shares the defect" % (ic, ipl))
@@ -617,6 +637,8 @@ def _overlap(case):
 
 def shrink(case):
     t = case.split()
+    if t[0] == "storm":
+        return
     if t[0] == "conc":
         ids = sorted({x.split(":")[1] for x in t[3:] if x[0] in "HGF"})
         for i in ids:
@@ -676,6 +698,10 @@ def distribution(cases, impl):
          "redeliver": 0, "replay": 0, "bulk": 0, "bulk_churn": 0, "store_failures": 0, "conv_bad": 0, "pools_bad": 0, "handler_panics": 0,
          "kinds": {"I": 0, "P": 0, "L": 0}, "with_v4": 0, "with_v6": 0, "with_pd": 0, "ops_max": 0}
     for c, o in zip(cases, impl):
+        if c.startswith("storm"):
+            d["storm"] = d.get("storm", 0) + 1
+            d["storm_handlers"] = d.get("storm_handlers", 0) + int(c.split()[3]) * int(c.split()[4])
+            continue
         if c.startswith("conc"):
             d["conc"] = d.get("conc", 0) + 1
             d["conc_overlap"] = d.get("conc_overlap", 0) + (c.split()[1] == "overlap")
